@@ -18,6 +18,7 @@ import (
 	"github.com/lindb/lindb/index"
 	"github.com/lindb/lindb/internal/vcrashfs"
 	"github.com/lindb/lindb/internal/vevid"
+	vos "github.com/lindb/lindb/internal/vos"
 	"github.com/lindb/lindb/kv"
 	"github.com/lindb/lindb/kv/table"
 	"github.com/lindb/lindb/kv/version"
@@ -79,6 +80,8 @@ func crashSeams() {
 		}
 		return filepath.Base(p)
 	}
+	// every os-level mutation of the rewritten packages is a crash point as well (also calls a later change adds)
+	vos.Hook = func(op, path string) { crec.At("os." + op + " " + rel(path)) }
 	ks := kv.VerifGetSeams()
 	kv.VerifSetSeams(kv.VerifSeams{
 		RemoveDir: func(p string) error { err := ks.RemoveDir(p); crec.At("removeDir " + rel(p)); return err },
